@@ -70,6 +70,8 @@ class Ctx:
         self.n_unsat = 0
         self.n_sat = 0
         self.n_unknown = 0
+        self.n_bvint = 0
+        self.bitops = False
         self.atoms_proved = 0
         self.atoms_trivial = 0
         self.path_atoms = 0
@@ -100,6 +102,7 @@ class Ctx:
         self.vars = {}
         self.var_kinds = {}
         self.fresh_n = 0
+        self.bitops = False
         self.path_atoms = 0
         self.path_nontrivial = False
 
@@ -113,7 +116,15 @@ class Ctx:
         s.push()
         for e in extra:
             s.add(e)
-        if self.fresh_only:
+        if self.bitops:
+            # bit operators on integers: the mixed integer/bit-vector query is re-encoded in wide
+            # bit-vectors (vf/bvint.py; exactness is itself checked there)
+            r, m = self._check_bitops(extra, timeout_ms)
+        else:
+            r, m = z3.unknown, None
+        if r != z3.unknown:
+            pass
+        elif self.fresh_only:
             r, m = z3.unknown, None
         else:
             r = s.check()
@@ -142,6 +153,29 @@ class Ctx:
         else:
             self.n_unknown += 1
         return rs, m
+
+    def _check_bitops(self, extra, timeout_ms):
+        from . import bvint
+
+        terms = list(self.pc) + list(extra)
+        if not bvint.has_bitops(terms):
+            return z3.unknown, None
+        got = bvint.decide(terms, timeout_ms if timeout_ms is not None else self.timeout_ms)
+        if got is None:
+            return z3.unknown, None
+        self.n_bvint += 1
+        if got[0] == "unsat":
+            return z3.unsat, None
+        # integer values of the variables from the bit-vector model: confirmed by the integer
+        # solver with the variables pinned
+        s2 = z3.Solver()
+        s2.set("timeout", 20000)
+        s2.add(*terms)
+        for nm, v in got[1].items():
+            s2.add(z3.Int(nm) == v)
+        if s2.check() == z3.sat:
+            return z3.sat, s2.model()
+        return z3.unknown, None
 
     def add(self, term):
         """Add an assumption / decided branch to the path condition."""
@@ -704,6 +738,7 @@ class SymInt(SymNum):
         c = ctx()
         if c.decide(z3.Or(self.t < 0, self.t >= 2**64, b < 0, b >= 2**64)):
             raise Abort("bitwise operator outside 0 .. 2^64-1")
+        c.bitops = True
         return SymInt(z3.BV2Int(f(z3.Int2BV(self.t, 64), z3.Int2BV(b, 64))))
 
     def __or__(self, o):
